@@ -25,10 +25,25 @@ import (
 var ErrSQLInjected = errors.New("simsql: injected statement failure")
 
 type sqlFaultCtl struct {
-	mu     sync.Mutex
-	count  int
-	failAt int // 1-based; 0 = never
-	Fired  int
+	mu        sync.Mutex
+	count     int
+	failAt    int // 1-based; 0 = never
+	Fired     int
+	suspended int // >0: statements issued by the harness itself (not counted, never failed)
+}
+
+// Harness runs f with statement counting and failing switched off (the harness's own
+// reads through the same connection must not perturb the schedule of faults).
+func (c *sqlFaultCtl) Harness(f func()) {
+	c.mu.Lock()
+	c.suspended++
+	c.mu.Unlock()
+	defer func() {
+		c.mu.Lock()
+		c.suspended--
+		c.mu.Unlock()
+	}()
+	f()
 }
 
 var SQLFault = &sqlFaultCtl{}
@@ -50,6 +65,9 @@ func (c *sqlFaultCtl) Count() int {
 func (c *sqlFaultCtl) step() error {
 	c.mu.Lock()
 	defer c.mu.Unlock()
+	if c.suspended > 0 {
+		return nil
+	}
 	c.count++
 	if c.failAt > 0 && c.count == c.failAt {
 		c.Fired++
@@ -202,11 +220,13 @@ func (s *SimRef) logMut(method, key string, old, new []byte, logged bool) {
 	s.mu.Unlock()
 }
 
-func (s *SimRef) cur(key string) []byte {
-	b, err := s.Inner.Get(key)
-	if err != nil {
-		return nil
-	}
+func (s *SimRef) cur(key string) (b []byte) {
+	SQLFault.Harness(func() {
+		v, err := s.Inner.Get(key)
+		if err == nil {
+			b = v
+		}
+	})
 	return b
 }
 
